@@ -118,9 +118,9 @@ def f_forall_int(ex, st, e, is_forall=True):
     body, facts = _quant(ex, st, lam, binders, vs, is_forall)
     f = z3.And(facts) if facts else z3.BoolVal(True)
     pats = _triggers(ex, st, e, binders)
+    _side(ex, st, vs, f, pats)
     if is_forall:
         return _b(smt.forall(vs, z3.Implies(f, body), pats))
-    _side(ex, st, vs, f, pats)
     return _b(smt.exists(vs, body, pats))
 
 
@@ -151,7 +151,11 @@ def _triggers(ex, st, e, binders):
                 ts = []
                 for t in terms:
                     v = ex.ev1(t, st)
-                    ts.append(v.t)
+                    tt = v.t
+                    # patterns on the element term itself, not on an accessor applied to it
+                    while z3.is_app(tt) and tt.decl().kind() == z3.Z3_OP_DT_ACCESSOR:
+                        tt = tt.arg(0)
+                    ts.append(tt)
             finally:
                 st.env = saved_env
                 ex.quant_facts = saved
@@ -167,7 +171,7 @@ def _elems(ex, st, e):
     base = ex.ev1(e.args[0], st)
     if base.k == "ref" and base.h is not None and base.h.kind == "dict":
         kd = ex.S.kinds.get(base.h.name)
-        return ex.heap_get(st, "$dk")[base.t], (kd[0] if isinstance(kd, tuple) else None)
+        return ex.dict_keys(st, base.t), (kd[0] if isinstance(kd, tuple) else None)
     return ex.seq_of(base, st, e), ex.list_elem_ty(base)
 
 
@@ -180,15 +184,16 @@ def f_forall_in(ex, st, e, is_forall=True, with_idx=False):
     ex.quant_facts = pre = []
     try:
         x = ex.wrap_elem(At(sq, k), ety, st)
+        pre.append(smt.elem_fact(sq, k))
     finally:
         ex.quant_facts = saved
     binders = [(names[0], SV("int", k, T("int"))), (names[1], x)] if with_idx else [(names[0], x)]
     body, facts = _quant(ex, st, lam, binders, [k], is_forall)
     f = z3.And(pre + facts) if (pre + facts) else z3.BoolVal(True)
     rng = z3.And(0 <= k, k < Len(sq))
+    _side(ex, st, [k], z3.Implies(rng, f), [At(sq, k)])
     if is_forall:
         return _b(smt.forall([k], z3.Implies(z3.And(rng, f), body), patterns=[At(sq, k)]))
-    _side(ex, st, [k], z3.Implies(rng, f), [At(sq, k)])
     return _b(smt.exists([k], z3.And(rng, body), [At(sq, k)]))
 
 
@@ -223,11 +228,11 @@ def f_forall_obj(ex, st, e, is_forall=True):
                 st.env = saved_env
                 ex.quant_facts = saved
             pats = [tv.t]
+    _side(ex, st, [o], z3.Implies(dom, z3.And(facts) if facts else z3.BoolVal(True)), pats or [alive[o]])
     if is_forall:
         if pats:
             return _b(smt.forall([o], z3.Implies(f, body), patterns=pats))
         return _b(smt.forall([o], z3.Implies(f, body), patterns=[alive[o]]))
-    _side(ex, st, [o], z3.Implies(dom, z3.And(facts) if facts else z3.BoolVal(True)), pats or [alive[o]])
     return _b(smt.exists([o], z3.And(dom, body), pats))
 
 
@@ -300,8 +305,8 @@ def f_nodup(ex, st, e):
 
 def f_sum_r(ex, st, e):
     s, v = _seqarg(ex, st, e.args[0])
-    if not ex.mentions_bound(s):
-        st.pc.append(smt.PSum(s, 0) == 0)
+    if False:
+        pass
     return SV("val", Val.realv(smt.SumR(s)), T("num"))
 
 
@@ -313,16 +318,16 @@ def f_sum_i(ex, st, e):
 def f_psum(ex, st, e):
     s, v = _seqarg(ex, st, e.args[0])
     n = ex.as_int(ex.ev1(e.args[1], st), st, e)
-    if not ex.mentions_bound(s):
-        st.pc.append(smt.PSum(s, 0) == 0)
+    if not ex.mentions_bound(s) and not ex.mentions_bound(n):
+        st.pc.extend(smt.psum_facts(s, n))
     return SV("val", Val.realv(smt.PSum(s, n)), T("num"))
 
 
 def f_psum_i(ex, st, e):
     s, v = _seqarg(ex, st, e.args[0])
     n = ex.as_int(ex.ev1(e.args[1], st), st, e)
-    if not ex.mentions_bound(s):
-        st.pc.append(smt.PSumI(s, 0) == 0)
+    if not ex.mentions_bound(s) and not ex.mentions_bound(n):
+        st.pc.extend(smt.psumi_facts(s, n))
     return SV("int", smt.PSumI(s, n), T("int"))
 
 
@@ -394,7 +399,7 @@ SPEC_FUNCS = {
     "S": f_S, "append1": f_append1, "remove_at": f_remove_at, "remove1": f_remove1, "take": f_take,
     "drop": f_drop, "concat": f_concat, "index_of": f_index_of, "nodup": f_nodup,
     "sum_r": f_sum_r, "sum_i": f_sum_i, "psum": f_psum, "psum_i": f_psum_i,
-    "is_int": _valpred(smt.isint), "is_real": _valpred(lambda v: Val.is_realv(v)),
+    "is_int": _valpred(lambda v: Val.is_intv(v)), "is_intlike": _valpred(smt.isint), "is_real": _valpred(lambda v: Val.is_realv(v)),
     "is_number": _valpred(smt.is_number), "is_none": _valpred(lambda v: Val.is_none(v)),
     "is_false": _valpred(lambda v: v == Val.boolv(False)), "is_dec": _valpred(lambda v: z3.Or(Val.is_decv(v), Val.is_dpinf(v))),
     "is_fin": _valpred(smt.isfin), "is_pinf": _valpred(lambda v: Val.is_pinf(v)),
